@@ -261,7 +261,7 @@ example : ∃ (Afun : List ℝ → List ℝ) (k k' : Nat) (θ θ' : Nat → ℝ)
 on `ℝ²`, the 2-norm, the exact eigen-decomposition of `1 × 1` matrices, one iteration in both directions, `dt = 1`,
 and the non-constant scalar function `dexp y = y + √(1 + y²)` (`= exp (arsinh y)`, which satisfies
 `dexp (-y) * dexp y = 1`); the forward result is `(2 + √5) • v ≠ v`. -/
-example : ∃ (Afun : List ℝ → List ℝ) (M : Nat → Nat → ℝ) (dnorm : List ℝ → ℝ)
+theorem expm_cancel_nonvacuous : ∃ (Afun : List ℝ → List ℝ) (M : Nat → Nat → ℝ) (dnorm : List ℝ → ℝ)
     (deigh : List ℝ → List ℝ → List ℝ × Mat ℝ) (dexp : ℝ → ℝ) (v r r' : List ℝ) (dt : ℝ),
     NormContract dnorm ∧ ActsAs v.length Afun M ∧
     (∀ i j, i < v.length → j < v.length → (starRingEnd ℝ) (M i j) = M j i) ∧
